@@ -41,6 +41,7 @@ type StressCase struct {
 	nOps       int
 	cipher     string
 	sharedGets int // Get/DecodeStream operations issued by >= 2 goroutines
+	badAdler   int // decodes of the Flate stream with a wrong Adler-32
 	errClasses []string
 }
 
@@ -77,6 +78,8 @@ type stressFile struct {
 	// cipher is "none", "RC4-40", "RC4-128", "AES-128" or "AES-256"
 	cipher   string
 	password string
+	// damaged: Flate streams with a wrong or missing zlib trailer
+	damaged map[pdf.Reference]string
 }
 
 func compressible(r *vt.Rand, n int) []byte {
@@ -122,7 +125,7 @@ func buildStressFile(seed uint64) (*stressFile, error) {
 	}
 	w, mf := memfile.NewPDFWriter(v, opt)
 	f := &stressFile{objs: map[pdf.Reference]pdf.Object{}, bodies: map[pdf.Reference][]byte{}, target: map[string]pdf.Reference{},
-		cipher: cipher, password: password}
+		cipher: cipher, password: password, damaged: map[pdf.Reference]string{}}
 
 	put := func(obj pdf.Object) (pdf.Reference, error) {
 		ref := w.Alloc()
@@ -222,6 +225,28 @@ func buildStressFile(seed uint64) (*stressFile, error) {
 		}
 		f.streams = append(f.streams, ref)
 		f.bodies[ref] = body
+	}
+	// Flate streams with a damaged zlib trailer, written raw: the wrong
+	// Adler-32 is tolerated by design (alone the decode returns the data
+	// without error, see flatepool_test.go), the stream cut in front of the
+	// trailer returns the data and an error.  What they return must not
+	// depend on which zlib readers other goroutines have put into the pool.
+	for _, kind := range []string{"bad-adler", "cut-before-trailer"} {
+		body := compressible(r, 200+r.Intn(3000))
+		ref := w.Alloc()
+		stm, err := w.OpenStream(ref, pdf.Dict{"Filter": pdf.Name("FlateDecode")})
+		if err != nil {
+			return nil, err
+		}
+		if _, err := stm.Write(damagedFlate(body, kind)); err != nil {
+			return nil, err
+		}
+		if err := stm.Close(); err != nil {
+			return nil, err
+		}
+		f.streams = append(f.streams, ref)
+		f.bodies[ref] = body
+		f.damaged[ref] = kind
 	}
 	if err := w.Close(); err != nil {
 		return nil, err
@@ -428,6 +453,14 @@ func (s *stressRun) do(g int, op stressOp) (res stressResult) {
 			return fail(err)
 		}
 		data, err := io.ReadAll(rc)
+		if kind := s.f.damaged[ref]; kind != "" {
+			cerr := rc.Close()
+			if kind == "bad-adler" && (err != nil || cerr != nil || !bytes.Equal(data, s.f.bodies[ref])) {
+				return fail(fmt.Errorf("oracle: DecodeStream(%v), a Flate stream with a wrong Adler-32: read error %v, close error %v, %d bytes (equal to the body: %v); alone, on a fresh zlib reader, it returns the %d bytes of the body without error", ref, err, cerr, len(data), bytes.Equal(data, s.f.bodies[ref]), len(s.f.bodies[ref])))
+			}
+			res.sum = vt.HashBytes(data, []byte(errText(err)), []byte(errText(cerr)))
+			return res
+		}
 		if cerr := rc.Close(); err == nil {
 			err = cerr
 		}
@@ -644,13 +677,17 @@ func checkStress(c *StressCase) error {
 	}
 	ops := expandOps(c, f)
 	G := c.Goroutines
-	c.cipher, c.sharedGets, c.errClasses = f.cipher, 0, nil
+	c.cipher, c.sharedGets, c.errClasses, c.badAdler = f.cipher, 0, nil, 0
 	readers := 0
 	for g := range ops {
+		counted := false
 		for _, op := range ops[g] {
-			if op.kind == opGet || op.kind == opStream {
+			if (op.kind == opGet || op.kind == opStream) && !counted {
 				readers++
-				break
+				counted = true
+			}
+			if op.kind == opStream && f.damaged[f.streams[op.arg]] == "bad-adler" {
+				c.badAdler++
 			}
 		}
 	}
@@ -712,8 +749,11 @@ func checkStress(c *StressCase) error {
 			if w.failed != h.failed {
 				return fmt.Errorf("%s: failed=%v (%s) concurrently, failed=%v (%s) sequentially", name, h.failed, h.errMsg, w.failed, w.errMsg)
 			}
-			if strings.HasPrefix(h.errMsg, "panic:") {
+			if strings.HasPrefix(h.errMsg, "panic:") || strings.HasPrefix(h.errMsg, "oracle:") {
 				return fmt.Errorf("%s: %s", name, h.errMsg)
+			}
+			if strings.HasPrefix(w.errMsg, "oracle:") {
+				return fmt.Errorf("%s (sequential run): %s", name, w.errMsg)
 			}
 			if w.sum != h.sum {
 				return fmt.Errorf("%s: result differs from the sequential run", name)
@@ -850,6 +890,9 @@ var stressProp = &vt.Prop[StressCase]{
 					cl = append(cl, "RC4-40-read-by>=2-goroutines")
 				}
 			}
+		}
+		if c.badAdler > 0 && c.sharedGets >= 2 {
+			cl = append(cl, "flate-bad-adler/concurrent")
 		}
 		for _, e := range c.errClasses {
 			cl = append(cl, "failing-Get:"+e)
